@@ -25,6 +25,8 @@ type c19Stage struct {
 type c19World struct {
 	stages []c19Stage
 	trace  []string
+	calls  int // executions of the core handler so far
+	hfail  int // 0: never fails; 1: returns an error on its first execution; 2: panics on its first execution
 }
 
 func c19CtxLabel(ctx context.Context) string {
@@ -40,10 +42,18 @@ func c19Stages(n int) []c19Stage {
 	return st
 }
 
-func (w *c19World) ref(i int, msg, ctx string, out *[]string) {
+// ref is the reference model: stage i calls the rest of the chain k times and
+// keeps every result; it returns the label of the result the stage hands back.
+// A result is labelled by what the core handler answered when it produced it
+// ("<message>#<execution number>", or "failed").
+func (w *c19World) ref(i int, msg, ctx string, out *[]string, calls *int) string {
 	if i == len(w.stages) {
 		*out = append(*out, "T:"+msg+":"+ctx)
-		return
+		*calls++
+		if w.hfail != 0 && *calls == 1 {
+			return "failed"
+		}
+		return msg + "#" + strconv.Itoa(*calls)
 	}
 	s := w.stages[i]
 	id := strconv.Itoa(i)
@@ -55,10 +65,35 @@ func (w *c19World) ref(i int, msg, ctx string, out *[]string) {
 	if s.replCtx {
 		c2 = "c" + id
 	}
+	var kept []string
 	for j := 0; j < s.k; j++ {
-		w.ref(i+1, m2, c2, out)
+		kept = append(kept, w.ref(i+1, m2, c2, out, calls))
 		*out = append(*out, "R"+id)
 	}
+	// what the stage still holds after all its calls
+	for j, r := range kept {
+		*out = append(*out, "K"+id+":"+strconv.Itoa(j)+":"+r)
+	}
+	if s.fail {
+		return "failed"
+	}
+	if len(kept) == 0 {
+		return "failed"
+	}
+	return kept[len(kept)-1]
+}
+
+func c19ItemLabel(bi *kmip.ResponseBatchItem) string {
+	if bi == nil {
+		return "nil"
+	}
+	if bi.ResultStatus != kmip.ResultStatusSuccess {
+		return "failed"
+	}
+	if pl, ok := bi.ResponsePayload.(*payloads.ActivateResponsePayload); ok && pl != nil {
+		return pl.UniqueIdentifier
+	}
+	return "nopayload"
 }
 
 func c19Request(label string) *kmip.RequestMessage {
@@ -73,7 +108,16 @@ func (w *c19World) handler() OperationHandler {
 	return handlerFunc(func(ctx context.Context, req kmip.OperationPayload) (kmip.OperationPayload, error) {
 		pl := req.(*payloads.ActivateRequestPayload)
 		w.trace = append(w.trace, "T:"+pl.UniqueIdentifier+":"+c19CtxLabel(ctx))
-		return &payloads.ActivateResponsePayload{UniqueIdentifier: pl.UniqueIdentifier}, nil
+		w.calls++
+		if w.calls == 1 {
+			switch w.hfail {
+			case 1:
+				return nil, errors.New("handler error")
+			case 2:
+				panic("handler panic")
+			}
+		}
+		return &payloads.ActivateResponsePayload{UniqueIdentifier: pl.UniqueIdentifier + "#" + strconv.Itoa(w.calls)}, nil
 	})
 }
 
@@ -83,12 +127,16 @@ func c19Compare(got, want []string) {
 		if i >= len(got) {
 			break
 		}
+		if got[i] != want[i] {
+			verifObserveStr("trace got", got[i])
+			verifObserveStr("trace want", want[i])
+		}
 		verifAssert("trace entry", got[i] == want[i])
 	}
 }
 
 func VerifC19_Server(n int) {
-	w := &c19World{stages: c19Stages(n)}
+	w := &c19World{stages: c19Stages(n), hfail: verifChoose("hfail", 3)}
 	exec := NewBatchExecutor()
 	exec.Route(kmip.OperationActivate, w.handler())
 	for i := range w.stages {
@@ -106,9 +154,23 @@ func VerifC19_Server(n int) {
 			}
 			var resp *kmip.ResponseMessage
 			err := errors.New("short circuit")
+			var kept []*kmip.ResponseMessage
+			var keptErr []error
 			for j := 0; j < s.k; j++ {
 				resp, err = next(c2, m2)
+				kept = append(kept, resp)
+				keptErr = append(keptErr, err)
 				w.trace = append(w.trace, "R"+id)
+			}
+			for j, r := range kept {
+				l := "nil"
+				if r != nil && len(r.BatchItem) == 1 {
+					l = c19ItemLabel(&r.BatchItem[0])
+				}
+				if keptErr[j] != nil {
+					l = "failed"
+				}
+				w.trace = append(w.trace, "K"+id+":"+strconv.Itoa(j)+":"+l)
 			}
 			if s.fail {
 				return nil, errors.New("stage error")
@@ -119,12 +181,13 @@ func VerifC19_Server(n int) {
 	resp := exec.HandleRequest(context.WithValue(context.Background(), c19Key{}, "c"), c19Request("m"))
 	verifAssert("a response is produced", resp != nil)
 	var want []string
-	w.ref(0, "m", "c", &want)
+	calls := 0
+	w.ref(0, "m", "c", &want, &calls)
 	c19Compare(w.trace, want)
 }
 
 func VerifC19_Item(n int) {
-	w := &c19World{stages: c19Stages(n)}
+	w := &c19World{stages: c19Stages(n), hfail: verifChoose("hfail", 3)}
 	exec := NewBatchExecutor()
 	exec.Route(kmip.OperationActivate, w.handler())
 	for i := range w.stages {
@@ -140,14 +203,25 @@ func VerifC19_Item(n int) {
 			if s.replCtx {
 				c2 = context.WithValue(ctx, c19Key{}, "c"+id)
 			}
-			resp := &kmip.ResponseBatchItem{Operation: bi.Operation}
+			resp := &kmip.ResponseBatchItem{Operation: bi.Operation, ResultStatus: kmip.ResultStatusOperationFailed}
 			err := errors.New("short circuit")
+			var kept []*kmip.ResponseBatchItem
+			var keptErr []error
 			for j := 0; j < s.k; j++ {
 				resp, err = next(c2, b2)
+				kept = append(kept, resp)
+				keptErr = append(keptErr, err)
 				w.trace = append(w.trace, "R"+id)
 			}
+			for j, r := range kept {
+				l := c19ItemLabel(r)
+				if keptErr[j] != nil {
+					l = "failed"
+				}
+				w.trace = append(w.trace, "K"+id+":"+strconv.Itoa(j)+":"+l)
+			}
 			if s.fail {
-				return &kmip.ResponseBatchItem{Operation: bi.Operation}, errors.New("stage error")
+				return &kmip.ResponseBatchItem{Operation: bi.Operation, ResultStatus: kmip.ResultStatusOperationFailed}, errors.New("stage error")
 			}
 			return resp, err
 		})
@@ -155,8 +229,12 @@ func VerifC19_Item(n int) {
 	resp := exec.HandleRequest(context.WithValue(context.Background(), c19Key{}, "c"), c19Request("m"))
 	verifAssert("a response is produced", resp != nil && len(resp.BatchItem) == 1)
 	var want []string
-	w.ref(0, "m", "c", &want)
+	calls := 0
+	res := w.ref(0, "m", "c", &want, &calls)
 	c19Compare(w.trace, want)
+	if resp != nil && len(resp.BatchItem) == 1 {
+		verifAssert("the response carries the outermost stage's result", c19ItemLabel(&resp.BatchItem[0]) == res)
+	}
 }
 
 // ---------------------------------------------------------------------------
